@@ -32,7 +32,12 @@ def gen(rng, tier, info):
         cap = buflen // n
         calls_r, calls_c, tags = [], [], []
         nontriv = False
-        ncalls = rng.range(1, 5)
+        # a small per-case pixel alphabet: the same pixel recurs across calls (fill, image starting with that pixel, fill
+        # again), which is what a stale staging buffer or a wrongly kept cache needs in order to show
+        alpha = [[rng.choice([0xA5, rng.range(0, 255)]) for _ in range(n)] for _ in range(rng.range(1, 3))]
+        def pick_px():
+            return list(rng.choice(alpha)) if rng.chance(3, 4) else [rng.range(0, 255) for _ in range(n)]
+        ncalls = rng.range(1, 7)
         # the first call is a command: it defines the DC level
         for i in range(ncalls):
             k = 0 if i == 0 else rng.below(3)
@@ -45,14 +50,14 @@ def gen(rng, tier, info):
                 tags.append("cmd")
             elif k == 1:
                 cnt = counts(rng, cap)
-                px = [[rng.choice([0xA5, rng.range(0, 255)]) for _ in range(n)] for _ in range(cnt)]
+                px = [pick_px() for _ in range(cnt)]
                 calls_r.append("p %d %d %s" % (n, cnt, " ".join(str(b) for p in px for b in p)))
                 calls_c.append("SPx %d [%s]" % (n, ";".join(zl(p) for p in px)))
                 tags.append("px:%s" % ("0" if cnt == 0 else "<cap" if cnt < cap else "=k*cap" if cnt % cap == 0 else ">cap"))
                 nontriv = nontriv or cnt >= cap or cnt == 0
             else:
                 cnt = counts(rng, cap)
-                p = [rng.range(0, 255) for _ in range(n)]
+                p = pick_px()
                 calls_r.append("r %d %d %s" % (n, cnt, " ".join(map(str, p))))
                 calls_c.append("SRep %d %s %d" % (n, zl(p), cnt))
                 tags.append("rep:%s" % ("0" if cnt == 0 else "<cap" if cnt < cap else "=k*cap" if cnt % cap == 0 else ">cap"))
